@@ -146,7 +146,7 @@ func (e EnumSchema[S, T]) ValidateType(data T) error {
 }
 
 func (e EnumSchema[S, T]) SerializeType(data T) (any, error) {
-	return data, e.Validate(data)
+	return e.Serialize(data)
 }
 
 func (e EnumSchema[S, T]) asType(d any) (S, T, error) {
